@@ -78,6 +78,7 @@ class StreamMonitor:
         self.hist = weakref.WeakKeyDictionary()
         self.twins = weakref.WeakKeyDictionary()
         self.in_finalize = set()
+        self._hsum = weakref.WeakKeyDictionary()
 
     def attach(self):
         from pydrobert.speech import compute as C
@@ -89,6 +90,18 @@ class StreamMonitor:
 
     def v(self, what, **kw):
         self.rec.violation(dict(what=what, case=self.case, **kw))
+
+    def hsum(self, comp, inf):
+        """max_i sum_n |h_i[n]| at the buffer width the computer uses (1 for the energy impulse)"""
+        v = self._hsum.get(comp)
+        if v is None:
+            v = 1.0
+            if inf and len(inf["ir_widths"]) == 1:
+                with monitor.quiet():
+                    for i in range(comp.bank.num_filts):
+                        v = max(v, float(np.sum(np.abs(comp.bank.get_impulse_response(i, inf["ir_widths"][0])))))
+            self._hsum[comp] = v
+        return v
 
     def pre_chunk(self, c):
         x = c.args[0] if c.args else c.kwargs.get("chunk")
@@ -182,7 +195,14 @@ class StreamMonitor:
                 check="frame_count", got_frames=int(got.shape[0]), want_frames=int(want.shape[0]), **info)
             return
         rtol, atol = (1e-4, 1e-6) if x.dtype == np.float32 else (2e-2, 2e-3) if x.dtype == np.float16 else (1e-7, 1e-10)
-        ok, i, detail = compare_features(got.astype(np.float64), np.asarray(want, dtype=np.float64), bool(a.get("use_log")), config.LOG_FLOOR_VALUE, rtol, atol)
+        extra = 0.0
+        if not is_stft and N:
+            # rounding floor of the FFT-based convolution (see C03): blocks are aligned differently when streaming
+            delta = 256 * np.finfo(np.float64).eps * float(np.max(np.abs(x))) * self.hsum(comp, inf)
+            w64 = np.asarray(want, dtype=np.float64)
+            lin = np.exp(w64) if a.get("use_log") else w64
+            extra = (2 * np.sqrt(np.abs(lin)) * delta + delta ** 2) if a.get("use_power") else delta
+        ok, i, detail = compare_features(got.astype(np.float64), np.asarray(want, dtype=np.float64), bool(a.get("use_log")), config.LOG_FLOOR_VALUE, rtol, atol, 0.0, extra)
         if not ok:
             self.v("streaming differs from compute_full at frame/coeff %r of %d frames: %s (N=%d, chunks %r, %s fl=%d fs=%d %s%s)" % (
                 i, want.shape[0], detail, N, comp_lens[:20], info["kind"], fl, fs, info["style"], " kaldi" if info["kaldi"] else ""), check="value",
